@@ -49,6 +49,7 @@ def run(ctx):
     C08.check_dzkp_consts(ctx, facts)
     sum_uv(ctx, facts)
     malsec.dzkp_verify_guard(ctx, facts, "GUARD-dzkp")
+    malsec.dzkp_validate_path(ctx, facts, "PATH-verdict")
     tables(ctx, facts)
     ctx.assume("Lagrange interpolation identities and the u/v table algebra are not decided")
 
